@@ -454,14 +454,14 @@ class FnEmitter:
                 self.counts['R10'] = self.counts.get('R10', 0) + 1
                 pos = body_text.find(wtext, pos + 1)
 
-        # R11: `recv.starts_with(ARG)` / `recv.ends_with(ARG)` on an identifier receiver (a str / String):
+        # R11: `recv.starts_with(ARG)` / `recv.ends_with(ARG)` / `recv.contains(ARG)` on an identifier receiver (a str / String):
         # str::starts_with is generic over the unstable Pattern trait and cannot be given a Verus
         # specification; the call is turned into a call of an external, total function
         # str_<method>_<lit|char|string>(&recv, ARG) (spec/chars.rs), chosen by the shape of ARG.
         k = bopen
         while k < bclose:
             t = toks[k]
-            if t.kind == 'id' and t.text in ('starts_with', 'ends_with'):
+            if t.kind == 'id' and t.text in ('starts_with', 'ends_with', 'contains'):
                 pd = prev_sig(toks, k)
                 pr = prev_sig(toks, pd)
                 nx = next_sig(toks, k)
